@@ -239,4 +239,26 @@ def feature_class(d):
             walk(node["outer"], "nest-outer")
             walk(node["inner"], "nest")
     walk(d["block"])
+    # a crossed derived factor that depends on a derived factor, or on a weighted factor outside some crossing (which the
+    # library replaces by a hidden derived factor)
+    def crossings(node):
+        k = node["kind"]
+        if k == "cross":
+            return [node["crossing"]]
+        if k == "multi":
+            return node["crossings"]
+        if k == "repeat":
+            return crossings(node["block"])
+        if k == "merge":
+            return [c for b in node["blocks"] for c in crossings(b)]
+        return crossings(node["outer"]) + crossings(node["inner"])
+    cs = crossings(d["block"])
+    for c in cs:
+        for f in c:
+            F = fm[f]
+            if model.is_derived(F):
+                for g in F["derive"]["deps"]:
+                    G = fm[g]
+                    if model.is_derived(G) or (any(w > 1 for _, w in G["levels"]) and not all(g in c2 for c2 in cs)):
+                        feats.append("crossed-derived-depends-on-derived")
     return sorted(set(feats))
